@@ -83,7 +83,43 @@ def _parse_anchor(rest):
     raise ValueError("bad anchor: %r" % rest)
 
 
+def _expand_macros(lines):
+    """//@@template NAME ... //@@endtemplate defines a block; //@@use NAME a=b c=d
+    instantiates it with $a / $c replaced."""
+    tpl = {}
+    out = []
+    cur = None
+    for ln in lines:
+        m = re.match(r'^\s*//@@template\s+(\w+)', ln)
+        if m:
+            cur = m.group(1)
+            tpl[cur] = []
+            continue
+        if re.match(r'^\s*//@@endtemplate', ln):
+            cur = None
+            continue
+        if cur is not None:
+            tpl[cur].append(ln)
+            continue
+        m = re.match(r'^\s*//@@use\s+(\w+)\s*(.*)$', ln)
+        if m:
+            args = dict(kv.split('=', 1) for kv in m.group(2).split())
+            for t in tpl[m.group(1)]:
+                for k, v in args.items():
+                    t = t.replace('$' + k, v)
+                out.append(t)
+            continue
+        out.append(ln)
+    return out
+
+
 def _load_template(path, seen=None):
+    top = seen is None
+    r = _load_template0(path, seen)
+    return _expand_macros(r) if top else r
+
+
+def _load_template0(path, seen=None):
     seen = seen or set()
     out = []
     with open(path) as f:
@@ -94,7 +130,7 @@ def _load_template(path, seen=None):
                 if inc in seen:
                     continue
                 seen.add(inc)
-                out.extend(_load_template(inc, seen))
+                out.extend(_load_template0(inc, seen))
             else:
                 out.append(ln)
     return out
